@@ -31,6 +31,7 @@ SLOTS = [
     ("keepdims", lambda v: {"op": "sum", "desc": "a [b]", "shapes": [[2, 3]], "kwargs": {"keepdims": v}}),
     ("solve-axes", lambda v: {"op": "solve_axes", "desc": "a b", "shapes": [[1, 3]], "kwargs": {"a": v}}),
     ("scalar-tensor", lambda v: {"op": "add", "desc": "a, -> a", "shapes": [[2], "scalar"], "scalar": v, "kwargs": {}}),
+    ("adapter-option", lambda v: {"op": "adapted", "adapter": "elementwise:option-sensitive", "desc": "a", "shapes": [[3]], "kwargs": {"opt": v}}),
 ]
 
 GOOD = {"op": "add", "desc": "a b, b -> a b", "shapes": [[2, 3], [3]], "kwargs": {}}
@@ -143,7 +144,7 @@ def main():
                 pass
     pairs = pairs + [e for e in extra if e[1] == e[2]]
     # the CPython-equal representatives are always replayed (whether or not the current key still merges them)
-    for name, x, y in (("canonical:int-float", 2, 2.0), ("canonical:int-bool", 1, True), ("canonical:float-bool", 1.0, True)):
+    for name, x, y in (("canonical:int-float", 2, 2.0), ("canonical:int-bool", 1, True), ("canonical:float-bool", 1.0, True), ("canonical:signed-zero", 0.0, -0.0)):
         if not any(type(a) is type(x) and type(b) is type(y) and a == x for _, a, b in pairs):
             pairs.append((name, x, y))
     # (2) replay every pair in every slot, both orders, plain and graph=True
@@ -225,6 +226,10 @@ def main():
     for x in red:
         for y in elw:
             items.append(("constant-history", f"{x}, {y}, {x} again", [mk_r(x), mk_e(y)], mk_r(x)))
+    # user functions that are value objects: equal (and hash-equal) but different functions
+    for kind, mk in (("reduce", mk_r), ("elementwise", mk_e)):
+        for a, b in (("2", "2.0"), ("2.0", "2"), ("1", "True"), ("True", "1"), ("0.0", "-0.0")):
+            items.append(("constant-history", f"{kind} value objects {a} then {b}", [mk(f"{kind}:value-object:{a}")], mk(f"{kind}:value-object:{b}")))
     # (3) failing call followed by a valid one, and a valid call repeated after the failing one of the same key family
     for fname, failing in FAILING:
         items.append(("failure-hygiene", fname, failing, GOOD))
